@@ -34,6 +34,7 @@ type c08Op struct {
 	integIdx int // -1: none
 	nonce    []byte
 	name     string
+	callerPrf bool // not a derivation: the caller computes a prf(SK_d, x) of its own on the exported Prf_d object (Reset, Write, Sum) and leaves it as it is
 	full     bool // the Child SA object carries everything a negotiated proposal carries (DH group, ESN): built through ToProposal / NewChildSAKeyByProposal when the proposal has an integrity transform, else filled in directly
 }
 
@@ -43,17 +44,18 @@ func c08Ops() []c08Op {
 	for _, el := range ref.EncrKeyLens {
 		for ii := -1; ii < 3; ii++ {
 			for ni, n := range nonces {
-				ops = append(ops, c08Op{el, ii, n, fmt.Sprintf("derive(aes%d,integ%d,nonce#%d)", el*8, ii, ni), false})
+				ops = append(ops, c08Op{encrLen: el, integIdx: ii, nonce: n, name: fmt.Sprintf("derive(aes%d,integ%d,nonce#%d)", el*8, ii, ni)})
 			}
 		}
 	}
 	for _, el := range ref.EncrKeyLens {
 		for ii := -1; ii < 3; ii++ {
 			for _, ni := range []int{2, 4} {
-				ops = append(ops, c08Op{el, ii, nonces[ni], fmt.Sprintf("derive(aes%d,integ%d,nonce#%d,negotiated with DH group and ESN)", el*8, ii, ni), true})
+				ops = append(ops, c08Op{encrLen: el, integIdx: ii, nonce: nonces[ni], name: fmt.Sprintf("derive(aes%d,integ%d,nonce#%d,negotiated with DH group and ESN)", el*8, ii, ni), full: true})
 			}
 		}
 	}
+	ops = append(ops, c08Op{name: "caller computes prf(SK_d, x) on the exported Prf_d object (RFC 7296 2.18 rekey)", callerPrf: true})
 	return ops
 }
 
@@ -170,44 +172,107 @@ func c08Window(nonce []byte) []byte {
 }
 
 func c08Apply(sa *security.IKESAKey, op c08Op) (string, error) {
+	if op.callerPrf {
+		if sa.Prf_d == nil {
+			return "caller-prf", nil
+		}
+		sa.Prf_d.Reset()
+		sa.Prf_d.Write(univ.Pat(40, 77))
+		sa.Prf_d.Sum(nil)
+		return "caller-prf", nil
+	}
 	nonce := c08Window(op.nonce)
 	if c08UseRefill {
 		nonce = inCallerBuffer(op.nonce)
 	}
+	ch, err := c08Child(op)
+	if err != nil {
+		return "", err
+	}
+	if err := ch.GenerateKeyForChildSA(sa, nonce); err != nil {
+		return "", err
+	}
+	return c08Keys(ch), nil
+}
+
+func c08Keys(ch *security.ChildSAKey) string {
+	return fmt.Sprintf("ei=%x ai=%x er=%x ar=%x", ch.InitiatorToResponderEncryptionKey, ch.InitiatorToResponderIntegrityKey,
+		ch.ResponderToInitiatorEncryptionKey, ch.ResponderToInitiatorIntegrityKey)
+}
+
+// c08Child builds the (un-keyed) Child SA object of an op.
+func c08Child(op c08Op) (*security.ChildSAKey, error) {
 	ch := &security.ChildSAKey{EncrKInfo: encr.StrToKType(univ.EncrName(op.encrLen))}
 	if op.integIdx >= 0 {
 		ch.IntegKInfo = integ.StrToKType(univ.IntegName(ref.Integs[op.integIdx]))
 		if ch.IntegKInfo == nil {
-			return "", fmt.Errorf("registry lacks child integrity algorithm")
+			return nil, fmt.Errorf("registry lacks child integrity algorithm")
 		}
 	}
 	if ch.EncrKInfo == nil {
-		return "", fmt.Errorf("registry lacks child encryption algorithm")
+		return nil, fmt.Errorf("registry lacks child encryption algorithm")
 	}
 	if op.full {
 		ch.DhInfo = dh.StrToType("DH_2048_BIT_MODP")
 		var err error
 		if ch.EsnInfo, err = esn.StrToType("ESN_DISABLE"); err != nil {
-			return "", err
+			return nil, err
 		}
 		if op.integIdx >= 0 {
 			prop, err := ch.ToProposal()
 			if err != nil {
-				return "", err
+				return nil, err
 			}
 			if ch, err = security.NewChildSAKeyByProposal(prop); err != nil {
-				return "", err
+				return nil, err
 			}
 		}
 	}
-	if err := ch.GenerateKeyForChildSA(sa, nonce); err != nil {
-		return "", err
+	return ch, nil
+}
+
+// c08Copies: the negotiated Child SA object is copied by value before it is keyed (one copy per Child SA: the first
+// one and its rekeyed successor); the keys of the first copy stay what they were when the second copy is keyed.
+func c08Copies(c *engine.Ctx, prfIdx int, ops []c08Op) {
+	for oi, op := range ops {
+		if op.callerPrf || op.nonce == nil {
+			continue
+		}
+		c.Evals++
+		c.Transitions += 2
+		cs := c08Case{PRF: prfIdx, Pat: 1, Op: oi, Depth: -2}
+		sa, skd := c08Fresh(prfIdx, 1)
+		tmpl, err := c08Child(op)
+		if err != nil {
+			continue
+		}
+		a, b := *tmpl, *tmpl
+		n2 := append(append([]byte(nil), op.nonce...), 0x5a)
+		if err := a.GenerateKeyForChildSA(sa, append([]byte(nil), op.nonce...)); err != nil {
+			continue
+		}
+		first := c08Keys(&a)
+		if err := b.GenerateKeyForChildSA(sa, n2); err != nil {
+			continue
+		}
+		op2 := op
+		op2.nonce = n2
+		if got, want := c08Keys(&a), c08Want(prfIdx, skd, op); got != first || got != want {
+			c.Violate("keymat/value-copy-changed-by-later-derivation", fmt.Sprintf("prf %s, %s: two value copies of one un-keyed Child SA object are keyed one after the other; the first copy's keys read %s afterwards, RFC 7296 2.17 gives %s", ref.PRFs[prfIdx].Digest, op.name, trs(got), trs(want)), cs)
+			return
+		}
+		if got, want := c08Keys(&b), c08Want(prfIdx, skd, op2); got != want {
+			c.Violate("keymat/value-copy", fmt.Sprintf("prf %s, %s: second value copy gets %s, RFC 7296 2.17 gives %s", ref.PRFs[prfIdx].Digest, op.name, trs(got), trs(want)), cs)
+			return
+		}
+		c.Count("value_copies_checked", 1)
 	}
-	return fmt.Sprintf("ei=%x ai=%x er=%x ar=%x", ch.InitiatorToResponderEncryptionKey, ch.InitiatorToResponderIntegrityKey,
-		ch.ResponderToInitiatorEncryptionKey, ch.ResponderToInitiatorIntegrityKey), nil
 }
 
 func c08Want(prfIdx int, skd []byte, op c08Op) string {
+	if op.callerPrf {
+		return "caller-prf"
+	}
 	il := 0
 	if op.integIdx >= 0 {
 		il = ref.Integs[op.integIdx].KeyLen
@@ -220,13 +285,17 @@ func init() {
 	engine.Register(&engine.Check{
 		ID:    "C08",
 		Level: "model_checking",
-		Rule: "explicit-state search over one real IKESAKey object per PRF and SK_d pattern: ops = derive(cfg, nonce) for 3 ESP key sizes × {no integrity, MD5-96, SHA1-96, SHA2-256-128} × nonces {nil, empty, 2 × 1 octet, 2 × 32 octets, 64, 65 octets} passed in a caller buffer that is refilled in place (96 ops); state = canonical dump of the whole SA object graph (hash states through their marshalled form); successors by replay from a fresh object; search to closure. " +
+		Rule: "explicit-state search over one real IKESAKey object per PRF and SK_d pattern: ops = derive(cfg, nonce) for 3 ESP key sizes × {no integrity, MD5-96, SHA1-96, SHA2-256-128} × nonces {nil, empty, 2 × 1 octet, 2 × 32 octets, 64, 65 octets} passed in a caller buffer that is refilled in place (96 ops); state = canonical dump of the whole SA object graph (hash states through their marshalled form); successors by replay from a fresh object; plus one op in which the caller computes a prf(SK_d, x) of its own on the exported Prf_d object and leaves it as it is; search to closure. Two value copies of every un-keyed Child SA object are keyed one after the other (the first copy's keys must stay). " +
 			"Oracle on every transition: the four keys equal the reference slices of prf+(SK_d, Ni|Nr) in the order ei, ai, er, ar and equal what a freshly built copy of the SA yields. distinct_nontrivial = distinct (state, op) transitions whose keys were compared",
 		Assumptions: []string{"closure of the concrete state space means the result holds for derivation histories of every length over this op alphabet (equal dumps have equal futures: the dump contains every field reachable from the object)"},
 		Run:         runC08,
 		Replay: func(c *engine.Ctx, raw json.RawMessage) {
 			var cs c08Case
 			unmarshalCase(raw, &cs)
+			if cs.Depth == -2 {
+				c08Copies(c, cs.PRF, c08Ops()[cs.Op:cs.Op+1])
+				return
+			}
 			if cs.Op == -2 {
 				c08FailedThenRetry(c, cs.PRF, cs.Depth, c08Op{encrLen: cs.Hist[0], integIdx: cs.Hist[1], nonce: univ.Pat(32, 4), name: "derive"})
 				return
@@ -380,6 +449,11 @@ func runC08(c *engine.Ctx) {
 	ops := c08Ops()
 	if err := engine.SnapshotSelfTest(); err != nil {
 		panic(err)
+	}
+	for prfIdx := 0; prfIdx < 3; prfIdx++ {
+		if c.Mine() {
+			c08Copies(c, prfIdx, ops)
+		}
 	}
 	for prfIdx := 0; prfIdx < 3; prfIdx++ {
 		for pi, pat := range []int{1, 2 + int(c.Seed%5), 1, 1, 1} {
